@@ -58,13 +58,17 @@ theorem mergePythonVersion_named (depth : Nat) (s1 s2 : Single) (im : Bool) (r :
         cases l with
         | single ms =>
           simp only at h
-          obtain ⟨w, hw, h⟩ := bind_ok.1 h
-          rw [pure_ok] at h; cases h
           have hmsn : ms.name = "python_full_version" := by
             have := hinner
             simp only [M.good_leaf, Named, Leaf.name, List.mem_singleton] at this
             exact this.1
-          exact reparseNames_holds ms _ hmsn hw
+          by_cases hop : (ms.op == "in" || ms.op == "not in") = true
+          · rw [if_pos hop, pure_ok] at h; cases h
+            simp only [M.good_leaf, PyNamed, Leaf.name]; exact Or.inr hmsn
+          · rw [if_neg hop] at h
+            obtain ⟨w, hw, h⟩ := bind_ok.1 h
+            rw [pure_ok] at h; cases h
+            exact reparseNames_holds ms _ hmsn hw
         | amulti n c =>
           simp only [pure_ok] at h; cases h
           have := hinner
